@@ -21,6 +21,7 @@ package registry
 
 import (
 	"bufio"
+	"compress/gzip"
 	"context"
 	"errors"
 	"fmt"
@@ -203,32 +204,150 @@ func (r *Response) Describe() string {
 	return fmt.Sprintf("status=%d hdr=[%s] len=%d framing=%s declared=%d end=%s chunks=%v", r.status(), strings.Join(hs, ";"), len(r.Body), r.Framing, r.declared(), r.End, r.Chunks)
 }
 
+// AsksGzip reports whether net/http's Transport adds "Accept-Encoding: gzip"
+// to a request with these headers (and therefore undoes a gzip
+// Content-Encoding of the response on its own): no Accept-Encoding and no
+// Range header in the request, method not HEAD.
+func AsksGzip(method string, h http.Header) bool {
+	return h.Get("Accept-Encoding") == "" && h.Get("Range") == "" && method != http.MethodHead
+}
+
+// Decoded reports whether a client that asked for gzip on its own hands out
+// the body of this response content-decoded: "Content-Encoding: gzip"
+// (ASCII case-insensitive, the first value) on a response that can have a body.
+func (r *Response) Decoded(askedGzip bool) bool {
+	if !askedGzip || !strings.EqualFold(r.Header.Get("Content-Encoding"), "gzip") {
+		return false
+	}
+	return !(r.Framing == FrameLength && r.declared() == 0)
+}
+
+// DeliveredTo is Delivered for a request with the given method and headers:
+// when the transport undoes the gzip content coding, the reader of the body
+// sees what compress/gzip (the package net/http uses) makes of the delivered
+// entity followed by its terminal condition.
+func (r *Response) DeliveredTo(method string, h http.Header) ([]byte, Term) {
+	data, term := r.Delivered()
+	if !r.Decoded(AsksGzip(method, h)) {
+		return data, term
+	}
+	src := &scriptBody{ctx: context.Background(), data: data, cuts: []int{len(data)}, term: term, stallErr: context.DeadlineExceeded}
+	out, err := io.ReadAll(&lazyGzip{body: src})
+	switch {
+	case err == nil:
+		return out, TermEOF
+	case errors.Is(err, io.ErrUnexpectedEOF):
+		return out, TermUnexpectedEOF
+	case errors.Is(err, context.DeadlineExceeded):
+		return out, TermStall
+	default:
+		return out, TermReset
+	}
+}
+
+// lazyGzip mirrors net/http's gzipReader: the gzip header is read on the first
+// Read, and its error is sticky.
+type lazyGzip struct {
+	body io.ReadCloser
+	zr   *gzip.Reader
+	zerr error
+}
+
+func (g *lazyGzip) Read(p []byte) (int, error) {
+	if g.zr == nil {
+		if g.zerr == nil {
+			g.zr, g.zerr = gzip.NewReader(g.body)
+		}
+		if g.zerr != nil {
+			return 0, g.zerr
+		}
+	}
+	return g.zr.Read(p)
+}
+
+func (g *lazyGzip) Close() error { return g.body.Close() }
+
+// Request is what the server saw of one request.
+type Request struct {
+	Method string
+	Path   string
+	Header http.Header
+}
+
+// routeTable is shared by Transport and Server: scripts by path, each path
+// with a sequence of responses (the n-th request gets the n-th, the last one
+// repeats), and a log of the requests.
+type routeTable struct {
+	mu     sync.Mutex
+	routes map[string][]*Response
+	hits   map[string]int
+	log    map[string][]Request
+}
+
+func newRouteTable() routeTable {
+	return routeTable{routes: map[string][]*Response{}, hits: map[string]int{}, log: map[string][]Request{}}
+}
+
+// Set installs one script for a path ("/x"); every request gets it.
+func (t *routeTable) Set(path string, r *Response) { t.SetSeq(path, []*Response{r}) }
+
+// SetSeq installs the scripts of successive requests for a path; the last
+// one repeats.
+func (t *routeTable) SetSeq(path string, rs []*Response) {
+	t.mu.Lock()
+	t.routes[path] = rs
+	t.hits[path] = 0
+	delete(t.log, path)
+	t.mu.Unlock()
+}
+
+// Hits is the number of requests seen for the path since it was set.
+func (t *routeTable) Hits(path string) int {
+	t.mu.Lock()
+	defer t.mu.Unlock()
+	return t.hits[path]
+}
+
+// Requests is the log of the requests seen for the path since it was set.
+func (t *routeTable) Requests(path string) []Request {
+	t.mu.Lock()
+	defer t.mu.Unlock()
+	return append([]Request(nil), t.log[path]...)
+}
+
+// take records a request and returns its script (nil: no such path) and its
+// ordinal (1 for the first).
+func (t *routeTable) take(req *http.Request) (*Response, int) {
+	t.mu.Lock()
+	defer t.mu.Unlock()
+	path := req.URL.Path
+	t.hits[path]++
+	n := t.hits[path]
+	t.log[path] = append(t.log[path], Request{Method: req.Method, Path: path, Header: req.Header.Clone()})
+	rs := t.routes[path]
+	if len(rs) == 0 {
+		return nil, n
+	}
+	if n > len(rs) {
+		return rs[len(rs)-1], n
+	}
+	return rs[n-1], n
+}
+
 // ---------------------------------------------------------------------------
 // in-process transport
 
 // Transport is an http.RoundTripper serving scripts by URL path.
 type Transport struct {
-	mu     sync.Mutex
-	routes map[string]*Response
-	hits   map[string]int
+	routeTable
+	// Gate, if set, is called for every request after it has been recorded and
+	// before it is answered, with the path and the ordinal of the request for
+	// that path. It may block: the controlled schedules hold a download here.
+	Gate func(path string, n int)
 }
 
 func NewTransport() *Transport {
-	return &Transport{routes: map[string]*Response{}, hits: map[string]int{}}
-}
-
-// Set installs the script for a path ("/x").
-func (t *Transport) Set(path string, r *Response) {
-	t.mu.Lock()
-	t.routes[path] = r
-	t.mu.Unlock()
-}
-
-// Hits is the number of requests seen for the path.
-func (t *Transport) Hits(path string) int {
-	t.mu.Lock()
-	defer t.mu.Unlock()
-	return t.hits[path]
+	return &Transport{routeTable: newRouteTable()}
 }
 
 // URL is the URL to request for a path.
@@ -245,10 +364,10 @@ func (t *Transport) RoundTrip(req *http.Request) (*http.Response, error) {
 	if req.URL.Host == "" {
 		return nil, errors.New("registry: no Host in request URL")
 	}
-	t.mu.Lock()
-	r := t.routes[req.URL.Path]
-	t.hits[req.URL.Path]++
-	t.mu.Unlock()
+	r, n := t.take(req)
+	if g := t.Gate; g != nil {
+		g(req.URL.Path, n)
+	}
 	if err := req.Context().Err(); err != nil {
 		return nil, err
 	}
@@ -279,6 +398,14 @@ func (t *Transport) RoundTrip(req *http.Request) (*http.Response, error) {
 		resp.TransferEncoding = []string{"chunked"}
 	}
 	resp.Body = &scriptBody{ctx: req.Context(), data: data, cuts: r.cuts(len(data)), term: term}
+	if r.Decoded(AsksGzip(req.Method, req.Header)) {
+		// what net/http's Transport does when it asked for gzip by itself
+		resp.Body = &lazyGzip{body: resp.Body}
+		resp.Header.Del("Content-Encoding")
+		resp.Header.Del("Content-Length")
+		resp.ContentLength = -1
+		resp.Uncompressed = true
+	}
 	return resp, nil
 }
 
@@ -291,6 +418,9 @@ type scriptBody struct {
 	off    int
 	term   Term
 	closed bool
+	// stallErr, if set, is reported for TermStall instead of blocking
+	// (DeliveredTo evaluates a script without a request).
+	stallErr error
 }
 
 func (b *scriptBody) Read(p []byte) (int, error) {
@@ -323,6 +453,9 @@ func (b *scriptBody) Read(p []byte) (int, error) {
 	case TermReset:
 		return 0, ErrReset
 	default:
+		if b.stallErr != nil {
+			return 0, b.stallErr
+		}
 		<-b.ctx.Done()
 		return 0, b.ctx.Err()
 	}
@@ -335,16 +468,14 @@ func (b *scriptBody) Close() error { b.closed = true; return nil }
 
 // Server serves scripts over a loopback TCP listener.
 type Server struct {
-	srv    *httptest.Server
-	mu     sync.Mutex
-	routes map[string]*Response
-	hits   map[string]int
+	routeTable
+	srv *httptest.Server
 	// StallMax bounds how long a stalled response keeps its connection.
 	StallMax time.Duration
 }
 
 func NewServer() *Server {
-	s := &Server{routes: map[string]*Response{}, hits: map[string]int{}, StallMax: 15 * time.Second}
+	s := &Server{routeTable: newRouteTable(), StallMax: 15 * time.Second}
 	s.srv = httptest.NewServer(http.HandlerFunc(s.serve))
 	return s
 }
@@ -360,23 +491,8 @@ func (s *Server) Client() *http.Client { return s.srv.Client() }
 
 func (s *Server) URL(path string) string { return s.srv.URL + path }
 
-func (s *Server) Set(path string, r *Response) {
-	s.mu.Lock()
-	s.routes[path] = r
-	s.mu.Unlock()
-}
-
-func (s *Server) Hits(path string) int {
-	s.mu.Lock()
-	defer s.mu.Unlock()
-	return s.hits[path]
-}
-
 func (s *Server) serve(w http.ResponseWriter, req *http.Request) {
-	s.mu.Lock()
-	r := s.routes[req.URL.Path]
-	s.hits[req.URL.Path]++
-	s.mu.Unlock()
+	r, _ := s.take(req)
 	if r == nil {
 		http.NotFound(w, req)
 		return
